@@ -31,6 +31,8 @@ def cases(tier, rng):
         nr, nc = rng.randint(1, 8), rng.randint(1, 8)
         if nr * nc < 2:
             nc = 2
+        if rng.random() < 0.06:      # more than 256 cells, more than 127 columns / rows (narrow integer types, small sentinels)
+            nr, nc = rng.choice([(16, 17), (17, 16), (2, 140), (135, 2), (9, 30)])
         n = nr * nc
         src = rng.randrange(3)
         tgt = rng.randrange(3)
